@@ -101,6 +101,31 @@ def _is_set_expr(e) -> bool:
     return False
 
 
+def _hash_kind_of_class(model: RepoModel, f: Func, cname: str, depth: int = 0) -> str:
+    """what the position of an instance in a set depends on: 'object' when the class inherits object.__hash__ (the address: differs from
+    process to process), 'str' when its hash involves text (PYTHONHASHSEED), 'int' when it is computed from integers and from objects
+    that are themselves hashed by integers (the same in every process)."""
+    ci = model.resolve_class_name(cname.split(".")[-1], f.module)
+    if ci is None or depth > 3:
+        return "object"
+    deco = " ".join(norm(d) for d in ci.node.decorator_list)
+    h = ci.methods.get("__hash__")
+    texts = []
+    if h is not None:
+        texts.append(" ".join(norm(st) for st in h.node.body))
+    elif "dataclass" in deco and ("frozen=True" in deco or "unsafe_hash=True" in deco or "eq=False" not in deco):
+        # generated hash: the tuple of the fields
+        for st in ci.node.body:
+            if isinstance(st, ast.AnnAssign):
+                texts.append(norm(st.annotation))
+    else:
+        return "object"
+    txt = " ".join(texts)
+    if "str" in txt or any(hint in txt for hint in ("name", "path", "text", "label")) and "self.path" not in txt and "tuple" not in txt:
+        return "str"
+    return "int"
+
+
 def _elem_kind(f: Func, setname: str, selfattr: bool, model: RepoModel) -> Tuple[str, str]:
     """('int'|'str'|'object'|'unknown', evidence) for the elements of a local set / self attribute set."""
     exprs = []
@@ -136,7 +161,7 @@ def _elem_kind(f: Func, setname: str, selfattr: bool, model: RepoModel) -> Tuple
         elif any(h in t for h in INT_NAME_HINTS) or (isinstance(x, ast.Call) and call_name(x) in ("int", "len")):
             kinds.add("int")
         elif isinstance(x, ast.Call) and (call_name(x) or "")[:1].isupper():
-            kinds.add("object")
+            kinds.add(_hash_kind_of_class(model, f, call_name(x)))
         else:
             kinds.add("unknown")
         ev.append(t[:40])
